@@ -134,6 +134,21 @@ def referenceHash (sha256 : List Nat → List Nat) (r : Redact.Rules) (fmt : Eve
     if json.length > maxPduBytes then .error .pduSize
     else .ok (b64 (alphabetOf fmt) (sha256 json))
 
+/-- The event ID of an event in a room version whose event IDs are hashes (`EventIdFormatVersion`
+`V2` / `V3`, i.e. room version 3 onwards): `$` followed by the reference hash. ruma has no function
+for this step: its callers write `format!("${}", reference_hash(object, rules)?)` and parse the
+result as an `EventId` (the harness op `c05.eventid` does exactly that, with the real
+`reference_hash` and the real `EventId` parser). With format `V1` (room versions 1 and 2) the ID is
+`$opaque:server`, chosen by the origin server and not a function of the event: `none`. -/
+def eventId (sha256 : List Nat → List Nat) (r : Redact.Rules) (fmt : EventIdFormat) (o : Obj) :
+    Except Err (Option (List Nat)) :=
+  match fmt with
+  | .v1 => .ok none
+  | _ =>
+    match referenceHash sha256 r fmt o with
+    | .ok h => .ok (some (36 :: h))
+    | .error e => .error e
+
 /-! ### Executable reference SHA-256 (FIPS 180-4), `UInt32` arithmetic
 
 Bytes are `Nat`s below 256 (larger values are reduced modulo 256 when packed into words). -/
